@@ -3,6 +3,7 @@
   unit model (Model/Unit = `run_test_inner` + `detect_fd_leaks`).  Property theorems only.
 -/
 import NextestModel.Lemmas.Unit
+import NextestModel.Gen.Tables
 namespace NextestModel.C03Unit
 open NextestModel.Unit
 
@@ -52,6 +53,24 @@ theorem leak_iff_held_past_leak_timeout (c : Cfg) (u : U) (hp : u.phase = .runni
     have hto : u'.timedOut = u.timedOut := by rw [hu']; simp [run, step, hdr.1, hdr.2.2]
     refine ⟨hph, ⟨fun h => (by rw [hlk] at h; cases h), fun h => absurd h hcase⟩, hto, ?_⟩
     simp only [U.outcome, hto, hlk, hcase, decide_false]
+
+/-- **the two ways `detect_fd_leaks` ends, as read from executor.rs on this run, are the model's**: when the leak timer fires the
+    unit ends *leaky*; when both pipes reach end of file first it ends not leaky — `leaked` is exactly the loop's `break` value -/
+theorem leak_verdict_arms_are_the_models (c : Cfg) (u : U) (hp : u.phase = .draining) (hl : u.leaked = false) :
+    interpArm applyDrain guardDrain Gen.drainLeakTimerFiredArm u = fire c u ∧
+    interpArm applyDrain guardDrain Gen.drainFdsDoneArm u = step c u .fdsDone := by
+  obtain ⟨ph, sw, is_, gs, ws, ds, ls, lsp, hits, slow, to, lk⟩ := u
+  simp only at hp hl
+  subst hp hl
+  refine ⟨?_, ?_⟩
+  · unfold Gen.drainLeakTimerFiredArm
+    simp only [fire, interpArm, List.foldl]
+    simp only [guardDrain, applyDrain]
+    simp (config := { decide := true })
+  · unfold Gen.drainFdsDoneArm
+    simp only [step, interpArm, List.foldl]
+    simp only [guardDrain, applyDrain]
+    simp (config := { decide := true })
 
 -- not vacuous: leak timeout 200 ms; the pipes close 150 ms after the exit (not leaky), or 120 + 90 ms after it (leaky)
 example : let c : Cfg := { period := 1000, terminateAfter := none, grace := 100, leak := 200 }
